@@ -11,6 +11,11 @@ NEEDS = ["model/Lexer.v", "model/Parser.v", "model/Loader.v", "proofs/LexerP.v",
 TOKEN_RE = re.compile(r'"[^"\n]*"|\*\*|[A-Za-z_][A-Za-z_0-9.]*|\d[\d.]*(?:[eE][+-]?\d+)?[jJ]?|\S')
 
 
+# comment texts with characters that some line-splitting routines (str.splitlines) treat as line ends although the
+# grammar does not: VT, FF, FS, GS, RS, NEL, LS, PS; each followed by text that would be a statement if it became live
+EXOTIC_COMMENTS = [" # page\x0cVac | 9", " # a\x0bSgate(7) | 8", " # nel\x85Vac | 9", " # ls\u2028Rgate(1) | 9", " # ps\u2029Vac | 7",
+                   " # fs\x1cVac | 9", " # gs\x1dVac | 9", " # rs\x1eVac | 9", " # caf\u00e9 \u00a0 \ufeff x", " # \x00 nul"]
+
 def digest(p):
     import numpy as np
     out = []
@@ -71,7 +76,7 @@ def edit(rng, text, kinds_wanted=None):
             ln2 += " " * rng.randint(1, 3)
             tags.add("trailing-space")
         if "comment-eol" in ops and ln2.strip() and not ln2.endswith(" ") and rng.random() < 0.4:
-            ln2 += rng.choice([" # comment", "  # x = 1 | 2", " #", " # \"quoted\" (text) [0]"])
+            ln2 += rng.choice([" # comment", "  # x = 1 | 2", " #", " # \"quoted\" (text) [0]"] + EXOTIC_COMMENTS)
             tags.add("comment-eol")
         out.append(ln2)
         # own-line comments / blank lines: outside array bodies (not after an array head or row that is followed by a row)
@@ -79,7 +84,7 @@ def edit(rng, text, kinds_wanted=None):
         after_for_head = k == "for-head"
         if not in_array and not after_for_head:
             if "comment-line" in ops and rng.random() < 0.25:
-                out.append(rng.choice(["# a comment", "#", "# Op(1) | 0", "#  spaced   comment "]))
+                out.append(rng.choice(["# a comment", "#", "# Op(1) | 0", "#  spaced   comment "] + [c.lstrip() for c in EXOTIC_COMMENTS]))
                 tags.add("comment-line")
             if "blank" in ops and rng.random() < 0.25:
                 out.append("")
